@@ -555,6 +555,7 @@ fn main() {
     let args = Args::parse();
     quiet_panics();
     let mut rng = Rng::new(args.seed);
+    let mut frng = Rng::new(args.seed ^ 0xF0_46ED_0000);
     let mut krng = Rng::new(0xA1A1);
     let keys = Keys::new(&mut krng);
     let timed = args.extra.iter().any(|a| a == "--timed");
@@ -667,6 +668,28 @@ fn main() {
                     ps = s; ph = firsth;
                 }
             }
+            // ---- forged certificates (own random stream `frng`; a refused certificate changes nothing, so the schedule the main
+            //      stream explores is what it was without this step): signed by Byzantine validators only, declaring a stake
+            //      that would meet the threshold
+            if frng.chance(1, 20) {
+                let bz: Vec<usize> = (0..n).filter(|v| w.byz[*v]).collect();
+                let hs: Vec<usize> = w.blocks.keys().copied().filter(|h| *h != 0).collect();
+                let dests: Vec<usize> = (0..n).filter(|d| w.nodes[*d].is_some() && !w.crashed[*d]).collect();
+                if !bz.is_empty() && !hs.is_empty() && !dests.is_empty() {
+                    let rng = &mut frng;
+                    let h = *rng.pick(&hs);
+                    let s = w.blocks[&h].0;
+                    let ck = *rng.pick(&[CK::Notar, CK::Nf, CK::Skip, CK::Ff, CK::Final]);
+                    let mut a: Vec<usize> = bz.iter().copied().filter(|_| rng.chance(2, 3)).collect();
+                    let mut b: Vec<usize> = if matches!(ck, CK::Nf | CK::Skip) { bz.iter().copied().filter(|_| rng.chance(1, 2)).collect() } else { vec![] };
+                    if a.is_empty() && (b.is_empty() || rng.chance(1, 2)) { a.push(*rng.pick(&bz)); }
+                    if matches!(ck, CK::Nf | CK::Skip) && rng.chance(1, 6) { b.append(&mut a); b.sort(); b.dedup(); }
+                    let need = |num: u64| (w.total * num).div_ceil(5);
+                    let claim = *rng.pick(&[w.total, need(3), need(4), u64::MAX, w.total - 1]);
+                    let j = *rng.pick(&dests);
+                    w.inject_forged(j, ck, s, if ck.has_hash() { h } else { 0 }, &a, &b, claim);
+                }
+            }
             // ---- choose an action
             let busy: Vec<usize> = (0..n).filter(|j| w.nodes[*j].as_ref().is_some_and(|nd| !nd.dead && !nd.queue.is_empty() && !w.crashed[*j])).collect();
             let r = rng.below(100);
@@ -687,21 +710,7 @@ fn main() {
             } else if r < 92 && (!timed || rng.chance(1, 3)) {
                 // Byzantine injection: arbitrary (equivocating) votes to selected recipients
                 let bz: Vec<usize> = (0..n).filter(|v| w.byz[*v]).collect();
-                let hs: Vec<usize> = w.blocks.keys().copied().filter(|h| *h != 0).collect();
-                if !bz.is_empty() && !hs.is_empty() && rng.chance(1, 5) {
-                    // a forged certificate: signed by Byzantine validators only, declaring a stake that would meet the threshold
-                    let h = *rng.pick(&hs);
-                    let s = w.blocks[&h].0;
-                    let ck = *rng.pick(&[CK::Notar, CK::Nf, CK::Skip, CK::Ff, CK::Final]);
-                    let mut a: Vec<usize> = bz.iter().copied().filter(|_| rng.chance(2, 3)).collect();
-                    let mut b: Vec<usize> = if matches!(ck, CK::Nf | CK::Skip) { bz.iter().copied().filter(|_| rng.chance(1, 2)).collect() } else { vec![] };
-                    if a.is_empty() && (b.is_empty() || rng.chance(1, 2)) { a.push(*rng.pick(&bz)); }
-                    if matches!(ck, CK::Nf | CK::Skip) && rng.chance(1, 6) { b.append(&mut a); b.sort(); b.dedup(); }
-                    let need = |num: u64| (w.total * num).div_ceil(5);
-                    let claim = *rng.pick(&[w.total, need(3), need(4), u64::MAX, w.total - 1]);
-                    let dests: Vec<usize> = (0..n).filter(|d| w.nodes[*d].is_some() && !w.crashed[*d]).collect();
-                    if !dests.is_empty() { let j = *rng.pick(&dests); w.inject_forged(j, ck, s, if ck.has_hash() { h } else { 0 }, &a, &b, claim); }
-                } else if !bz.is_empty() && !w.blocks.is_empty() {
+                if !bz.is_empty() && !w.blocks.is_empty() {
                     let v = *rng.pick(&bz);
                     let hs: Vec<usize> = w.blocks.keys().copied().filter(|h| *h != 0).collect();
                     if !hs.is_empty() {
